@@ -219,6 +219,35 @@ def rule_partial_map_lookup(check, rule, al):
                                                 'inputs may lack entries (a plain inspect.Signature is upgraded with an empty map), so KeyError, which '
                                                 'is not a ValueError, escapes the algebra' % (bad[0], show(bad[1])[:40], show(bad[2])[:30]), key=key,
                                                 witness="merge(plain('a, *, k'), plain('a, **kwargs')) with inspect.Signature inputs")
+        # R7d (round 9, C15-u): removing an entry is a lookup too.  `del m[k]` / `m.pop(k)` on a provenance map -- a
+        # handle on an input's map or the private copy sort_params()/copy_sources() made of it, which has exactly the
+        # entries the input had -- raises KeyError for an input that lacks the entry, unless a membership test of that
+        # very map and key is on the path or a handler for KeyError encloses the statement.
+        for p in ps:
+            for e, g in walk_effects(p.effects):
+                if e.kind != 'mut' or e.target is None:
+                    continue
+                if not ((e.op == 'delitem' and len(e.args) == 1) or (e.op == 'pop' and len(e.args) == 1)):
+                    continue
+                kt = e.args[0]
+                if isinstance(kt, tuple) and kt and (kt[0] == 'SLICE' or (kt[0] == 'K' and isinstance(kt[1], int))):
+                    continue
+                if not (_is_input_map(fi, e.target, it, al, is_src_term) or _is_map_copy(e.target)):
+                    continue
+                n += 1
+                key = '%s|remove|%s[%s]' % (fi.key, show(e.target)[:40], show(kt)[:30])
+                if key in seen:
+                    continue
+                seen.add(key)
+                guarded = any(atom[0] == 'in' and atom[1] == kt and atom[2] == e.target and pol for atom, pol in list(p.lits) + list(g))
+                if guarded or _in_keyerror_handler(fi.node, e.node):
+                    check.holds(rule, site(None, e.node), 'entry removed from a provenance map behind a membership test / KeyError handler', key=key)
+                else:
+                    check.violation(rule, site(None, e.node), 'an entry is removed from a provenance map with a bare %s (%s[%s]): the map has '
+                                    'only the entries the input had (a plain inspect.Signature is upgraded with an empty map), so KeyError, '
+                                    'which is not a ValueError, escapes the algebra'
+                                    % ('del' if e.op == 'delitem' else 'pop without default', show(e.target)[:40], show(kt)[:30]), key=key,
+                                    witness="mask(inspect.signature(lambda a, *, k: 0), 0, 'k')")
         # membership-free .get()/pop-with-default lookups are the accepted idiom: count them
         for p in ps:
             for e, g in walk_effects(p.effects):
@@ -229,6 +258,30 @@ def rule_partial_map_lookup(check, rule, al):
                         seen.add(key)
                         check.holds(rule, site(None, e.node), 'input provenance map read with .get(key, default)', key=key)
     check.floor(rule, 'lookups in input provenance maps', n, 6)
+
+
+def _is_map_copy(t):
+    """the private copy of an input's provenance map: sort_params(...)[5] or copy_sources(...)"""
+    if not isinstance(t, tuple) or not t:
+        return False
+    if t[0] == 'C' and isinstance(t[1], str) and t[1].endswith(':copy_sources'):
+        return True
+    if t[0] == 'S' and t[2] == K(5) and isinstance(t[1], tuple) and t[1] and t[1][0] == 'C' \
+            and isinstance(t[1][1], str) and t[1][1].endswith(':sort_params'):
+        return True
+    return False
+
+
+def _in_keyerror_handler(fnode, node):
+    if node is None:
+        return False
+    for tr in ast.walk(fnode):
+        if isinstance(tr, ast.Try) and any(x is node for b in tr.body for x in ast.walk(b)):
+            for h in tr.handlers:
+                names = [norm(x) for x in (h.type.elts if isinstance(h.type, ast.Tuple) else [h.type])] if h.type is not None else ['BaseException']
+                if any(nm in ('KeyError', 'LookupError', 'Exception', 'BaseException') for nm in names):
+                    return True
+    return False
 
 
 def _is_input_map(fi, recv, it, al, is_src_term):
